@@ -13,6 +13,7 @@ pub mod c13;
 pub mod c14;
 pub mod c15;
 pub mod c16;
+pub mod c18;
 
 pub fn get(id: &str) -> Option<Box<dyn Check>> {
     match id {
@@ -28,6 +29,7 @@ pub fn get(id: &str) -> Option<Box<dyn Check>> {
         "C08" => Some(Box::new(c08::C08)),
         "C07" => Some(Box::new(c07::C07)),
         "C16" => Some(Box::new(c16::C16)),
+        "C18" => Some(Box::new(c18::C18)),
         "C05" => Some(Box::new(c05::C05)),
         _ => None,
     }
